@@ -227,6 +227,13 @@ func (x *ctxInfo) verdict(out clientx.Outcome, f string, p int, first string) {
 	x.r.Distinct(key)
 }
 
+// nopHooks: hooks that do nothing.
+type nopHooks struct{}
+
+func (nopHooks) BeforeWrite(toWrite []byte)                      {}
+func (nopHooks) AfterEachRead(received []byte, n int, err error) {}
+func (nopHooks) BeforeParse(received []byte)                     {}
+
 func headBytes(resp packet.Response) []byte {
 	if libx.IsNilValue(resp) {
 		return nil
@@ -360,6 +367,14 @@ func run(ci any, r *mon.Rec) {
 		r.Eval(1)
 		if out.Err == nil || out.Panic != "" || len(out.Events) != 0 {
 			r.Violate(c, "nil-request-not-refused", mon.Attrs{"client": clientx.KindName(c.Client)}, fmt.Sprintf("err=%v panic=%q transport events=%d", out.Err, out.Panic, len(out.Events)))
+		}
+		// ... also on a client that has logging hooks installed (there is no request whose bytes a hook could be shown)
+		hopt := opt
+		hopt.Hooks = nopHooks{}
+		out = clientx.Run(c.Client, nil, xport.Script{Reply: reply, Steps: xport.Cuts(L, nil, 0), Tail: "deadline"}, hopt)
+		r.Eval(1)
+		if out.Err == nil || out.Panic != "" || len(out.Events) != 0 {
+			r.Violate(c, "nil-request-not-refused", mon.Attrs{"client": clientx.KindName(c.Client), "hooks": true}, fmt.Sprintf("client with hooks installed: err=%v panic=%q transport events=%d", out.Err, out.Panic, len(out.Events)))
 		}
 		r.Distinct(mon.Mix(7, uint64(c.Client), uint64(c.FC)))
 		// never connected / no port
